@@ -264,8 +264,23 @@ func (g *gl) call(c *ast.CallExpr, bs *[]glBind) string {
 		}
 		if t != nil && g.translateFn(t) {
 			if t.recv != nil && t.recvPtr {
-				g.bad(c.Pos(), "value of a pointer-receiver method call used inside an expression (%s)", name)
-				return "sorryCall"
+				// r.m(args) inside an expression, m assigning to its receiver: the call is bound, the receiver path is
+				// re-bound to the returned receiver, the value is the method's result
+				if g.promotedPath(c) != "" || len(t.results) != 1 {
+					g.bad(c.Pos(), "value of a pointer-receiver method call used inside an expression (%s)", name)
+					return "sorryCall"
+				}
+				r := recvExpr(c)
+				args := []string{"fuel", atom(g.expr(r, bs))}
+				for _, a := range c.Args {
+					args = append(args, atom(g.expr(a, bs)))
+				}
+				n := g.fresh("r")
+				*bs = append(*bs, glBind{n, "(" + t.lean + " " + strings.Join(args, " ") + ")", false})
+				if v, nv := g.setPath(r, n+".1"); v != nil {
+					*bs = append(*bs, glBind{g.vname(v) + " : " + g.leanType(v.Type()), nv, true})
+				}
+				return n + ".2"
 			}
 			args := []string{"fuel"}
 			if t.recv != nil {
